@@ -179,8 +179,11 @@ func (g *gen) str() string {
 	case 0:
 		g.usesPh = true
 		return fmt.Sprintf("'${c18.s%d:%s}'", rapid.IntRange(0, 2).Draw(g.t, "skey"), rapid.StringMatching(`[a-z]{1,3}`).Draw(g.t, "sdef"))
-	default:
+	case 1:
 		return "'" + rapid.StringMatching(`[a-z]{1,4}`).Draw(g.t, "slit") + "'"
+	default:
+		// blanks at the edges (and nothing but a blank) are part of the result
+		return "'" + rapid.SampledFrom([]string{" a", "b ", " ", " c d ", "e"}).Draw(g.t, "sblank") + "'"
 	}
 }
 
